@@ -132,13 +132,16 @@ def _build(ck):
     if (ck.tier == "thorough" and not ck.replay) or wants_generated:
         configs += _generated_configs(ck, t, cur_of)
     rels = [dict(r, terms=[[qidx[a], e] for a, e in r["terms"]]) for r in ref["relations"]]
+    use_ids = set(ref["use_configs"]["thorough" if ck.tier == "thorough" else "quick"])
+    if ck.replay:
+        use_ids = set(ref["use_configs"]["thorough"])
     common = {"rows": t["rows"], "names": names, "quantities": quants, "configs": configs, "relations": rels}
     data = {
         "rows": [{"k": r["k"], "u": r["u"], "dim": r["dim"], "atoms": r["atoms"], "em": r["em_atomic"]} for r in t["rows"]],
         "names": [{"n": r["n"], "ci": r["ci"], "ai": r["ai"], "qi": r["qi"], "isunit": r["isunit"], "bare": r["bare"]} for r in names],
         "quantities": [{"id": q["id"], "dim": _vec(q["dim"]), "cls": q["class"], "unit_enum": bool(q["unit_enum"]), "ci": q["ci"]} for q in quants],
         "relations": [{"id": r["id"], "terms": r["terms"], "form": r["form"]} for r in rels],
-        "configs": [{"id": c["id"], "kind": c["kind"], "cur": c["cur"], "core": c["core"], "gensys": bool(c.get("gensys")), "genmod": bool(c.get("generated") and not c.get("gensys")), "mods": [{"s": m[0], "l": m[1]} for m in c.get("mods", [])]} for c in configs],
+        "configs": [{"id": c["id"], "kind": c["kind"], "cur": c["cur"], "core": c["core"], "gensys": bool(c.get("gensys")), "use": c["id"] in use_ids, "genmod": bool(c.get("generated") and not c.get("gensys")), "mods": [{"s": m[0], "l": m[1]} for m in c.get("mods", [])]} for c in configs],
         "classes": ref["classes"],
         "diffdesign": ref["unit_different_by_design"],
     }
@@ -210,6 +213,68 @@ def _validate(ck, common, data_path, obs, label):
     return n_p, n_t, notes
 
 
+def _use_label(common, cs):
+    nm = common["names"][cs["a"] - 1]
+    return {"name": nm["n"], "constant": common["rows"][nm["ci"] - 1]["k"], "config": common["configs"][cs["cfg"] - 1]["id"], "guise": cs["g"],
+            "ops": ">".join(cs["ops"]), "inplace": cs["ip"]}
+
+
+def _use_validate(ck, data_path, obs, label):
+    """TLC evaluates C15_UseKeeps (P) and the heap discipline (T) on the replayed histories; returns the raw records per chunk"""
+    offs = list(range(0, len(obs), CHUNK))
+
+    def one(off):
+        part = obs[off : off + CHUNK]
+        path = ck.write_json(f"use_{label}_{off}.json", part)
+        res = ck.tlc("Trace_C15_use", env={"OBS": path, "CONST_DATA": data_path}, workers=1, coverage=False, label=f"trace validation use histories {label}[{off}:{off + len(part)}]", timeout=3000)
+        if res.distinct != len(part) + 1:
+            raise MachineryFailure(f"use-history validation consumed {res.distinct} states, expected {len(part) + 1}")
+        return res
+
+    with cf.ThreadPoolExecutor(max_workers=max(1, min(NCPU, len(offs)))) as ex:
+        return list(zip(offs, ex.map(one, offs)))
+
+
+def _use_verdicts(ck, common, obs, results):
+    n_p, n_t, notes = 0, 0, {}
+    for off, res in results:
+        part = obs[off : off + CHUNK]
+        ck.validated(len(part))
+        for r in res.by_tag("NOTE"):
+            notes[r["what"]] = notes.get(r["what"], 0) + 1
+        for r in res.by_tag("T-FAIL"):
+            o = part[r["k"] - 1]
+            n_t += 1
+            ck.drift_step("use:" + r["what"], {"case": _use_label(common, o["case"]), "model": r["model"], "observed": o.get("steps")})
+        for r in res.by_tag("P-FAIL"):
+            o = part[r["k"] - 1]
+            n_p += 1
+            lab = _use_label(common, o["case"])
+            ck.violation(dict({"kind": "use", "clause": r["clause"]}, **lab), {k: v for k, v in o.items() if k != "case"}, case=dict(o["case"], **lab))
+    return n_p, n_t, notes
+
+
+def _use_pipeline(ck, common, data_path):
+    """stateful part: TLC enumerates the use histories, they are replayed on the real constants (module-level singletons are restored
+    after every history), TLC validates the observations.  Runs in its own thread; verdicts are applied by the caller."""
+    deep = ck.q(2, 3)
+    cfg = open(ck.spec + "/MC_C15_use.cfg").read().replace("MaxLen = 1", "MaxLen = 1").replace("DeepLen = 2", f"DeepLen = {deep}")
+    cfg = cfg.replace("WideAll = FALSE", "WideAll = " + ck.q("FALSE", "TRUE"))
+    open(ck.spec + "/MC_C15_use_run.cfg", "w").write(cfg)
+    res = ck.tlc("MC_C15_use", "MC_C15_use_run", env={"CONST_DATA": data_path}, workers=1, label=f"use histories (calls <= 1, deep rows <= {deep}) + model-level heap discipline",
+                 required_actions=["Next"], timeout=3000)
+    cases = res.by_tag("USE")
+    if len(cases) != res.distinct - 1 or not cases:
+        raise MachineryFailure(f"exported {len(cases)} use histories for {res.distinct} states")
+    cases = [{"kind": "use", "a": r["a"], "g": r["g"], "cfg": r["cfg"], "ops": list(r["ops"]), "ip": r["ip"]} for r in cases]
+    cases.sort(key=lambda r: (r["cfg"], r["a"], r["g"], len(r["ops"]), r["ops"], r["ip"]))
+    obs = ck.pmap("impl_c15", "observe_use", cases, common=common)
+    bad = [o for o in obs if "_error" in o]
+    if bad:
+        raise MachineryFailure("use-history replay error: " + str(bad[0]))
+    return cases, obs, _use_validate(ck, data_path, obs, "cases")
+
+
 def _relocate(common, case):
     """a replay file names things by text; find their numbers in the current tables"""
     cfgno = {c["id"]: i + 1 for i, c in enumerate(common["configs"])}
@@ -224,7 +289,7 @@ def _relocate(common, case):
     if case["kind"] == "lit" and "quantity" in case:
         qno = {q["id"]: i + 1 for i, q in enumerate(common["quantities"])}
         case["a"] = qno.get(case["quantity"], case["a"])
-    return {k: case[k] for k in ("kind", "a", "g", "cfg", "route")}
+    return {k: case[k] for k in ("kind", "a", "g", "cfg", "route", "ops", "ip") if k in case}
 
 
 def run(ck):
@@ -248,12 +313,20 @@ def run(ck):
         case = _relocate(common, dict(blob["case"]))
         if case["kind"] == "table":
             return
+        if case["kind"] == "use":
+            obs = ck.pmap("impl_c15", "observe_use", [case], nproc=1, common=common)
+            if "_error" in obs[0]:
+                raise MachineryFailure("replay error: " + str(obs[0]))
+            _use_verdicts(ck, common, obs, _use_validate(ck, data_path, obs, "replay"))
+            return
         obs = ck.pmap("impl_c15", "observe", [case], nproc=1, common=common)
         if "_error" in obs[0]:
             raise MachineryFailure("replay error: " + str(obs[0]))
         _validate(ck, common, data_path, obs, "replay")
         return
 
+    use_pool = cf.ThreadPoolExecutor(max_workers=1)
+    use_future = use_pool.submit(_use_pipeline, ck, common, data_path)
     sel = "all"
     cfg = open(ck.spec + "/MC_C15.cfg").read().replace('CfgSel = "all"', f'CfgSel = "{sel}"')
     open(ck.spec + "/MC_C15_run.cfg", "w").write(cfg)
@@ -315,6 +388,21 @@ def run(ck):
         rid = common["relations"][o["case"]["a"] - 1]["id"]
         na[rid] = na.get(rid, 0) + 1
     ck.cov["relation_instances_decided"] = {rid: applicable_rel.get(rid, 0) - na.get(rid, 0) for rid in [r["id"] for r in common["relations"]]}
+    # ---- stateful part (ran concurrently): apply its verdicts after the case table's, in a fixed order
+    ucases, uobs, uresults = use_future.result()
+    use_pool.shutdown()
+    u_p, u_t, unotes = _use_verdicts(ck, common, uobs, uresults)
+    lens = {}
+    for cs in ucases:
+        lens[len(cs["ops"])] = lens.get(len(cs["ops"]), 0) + 1
+    applied = sum(1 for o in uobs if o.get("present") and o["ip"]["applied"] and o["ip"]["ok"])
+    ck.cov["use_histories"] = {"replayed": len(ucases), "by_number_of_calls": {str(k): v for k, v in sorted(lens.items())}, "in_place_call_applied_and_accepted": applied,
+                               "configurations": [c["id"] for c in common["configs"] if c["id"] in set(json.load(open(REF, encoding="utf-8"))["use_configs"]["thorough" if ck.tier == "thorough" else "quick"])],
+                               "p_fail_records": u_p, "t_fail_records": u_t, "notes": unotes}
+    ck.cov["evaluations"] += len(ucases)
+    ck.cov["distinct_nontrivial"] += applied
+    ck.cov["rule"] += "; use histories whose in-place call was applied to a derived value and accepted"
+    ck.sample({"use_history": ucases[len(ucases) // 2], "what": _use_label(common, ucases[len(ucases) // 2])})
     never = [rid for rid, n in ck.cov["relation_instances_decided"].items() if n <= 0]
     if never and not ck.violations:
         raise MachineryFailure("relation never decided in any configuration (vacuous): " + ", ".join(never))
